@@ -22,7 +22,7 @@ RULE = ('state = (geometry, pos, size, cached bucket keys in eviction order, und
 ASSUMPTIONS = [
     'reference model: bytes slice file[offset:offset+size] with clamped positions (written here, not from dashlive)',
     'windows longer than the underlying file are not windows of it and are excluded',
-    'an empty str returned for an empty read is accepted as empty bytes (weaker reading)',
+    'reads return bytes (an empty str is not the empty byte string)',
     'for size=None a seek past the end may either clamp or keep the target (size not yet known)',
 ]
 
@@ -123,8 +123,6 @@ def canon(pair):
 
 
 def norm(rv):
-    if isinstance(rv, str) and rv == '':
-        return b''
     if isinstance(rv, (bytearray, memoryview)):
         return bytes(rv)
     return rv
